@@ -51,6 +51,9 @@ func Spec() *run.Spec {
 			"texcoord_only_triangle_meshes": 30, "ascii_files_with_empty_vertex_records_read_back": 15,
 			"texcoord_only_mesh_variants":    6,
 			"huge_whole_columns(arity/type)": 8, "huge_whole_column_values_written": 2000,
+			"ascii_vertex_row_widths": 36, "wide_row_populations": 10,
+			"ascii_files_read_back_with_a_vertex_row_over_4096_bytes": 40, "ascii_files_read_back_with_a_vertex_row_over_8192_bytes": 25,
+			"ascii_files_read_back_with_a_vertex_row_over_16384_bytes": 12, "ascii_files_read_back_with_a_vertex_row_over_60000_bytes": 6,
 			"fault_histories": 500, "good_ops_after_a_failure_in_the_records": 300, "failed_writes_reported": 300, "failed_reads_reported": 100,
 			"write_fault_positions": 6, "write_fault_modes": 2, "write_fault_sites": 7, "read_fault_positions": 5,
 		},
@@ -61,8 +64,13 @@ func Spec() *run.Spec {
 				}
 				return 4000
 			}, Run: func(c *run.Ctx) run.Result {
-				// one case in fifty is the directed texcoord-only triangle mesh
-				return runCase(c, genOpts{TexOnly: c.Case%50 == 7})
+				// one case in fifty is the directed texcoord-only triangle mesh, one in fifty a mesh with wide ASCII rows
+				o := genOpts{TexOnly: c.Case%50 == 7}
+				if c.Case%50 == 23 {
+					ws := wideTarget(c.Rng, c.Tier, c.Case/50)
+					o.Wide = &ws
+				}
+				return runCase(c, o)
 			}, Batch: 100, CPUBudgetS: 20},
 			{Name: "uchar-scalar", Cases: func(t string) int {
 				if t == "thorough" {
@@ -126,6 +134,8 @@ type caseState struct {
 	lands []landed
 	input string
 	dir   string
+	// widest vertex row of the ASCII file (bytes without terminator)
+	asciiMaxRow int
 }
 
 func (s *caseState) scratch() string {
@@ -257,6 +267,7 @@ func runCase(c *run.Ctx, o genOpts) run.Result {
 	}
 	knownRaw := map[string]bool{}
 	srcRng := c.SubRng(0x50c + o.Salt)
+	asciiMaxRow := 0
 	for _, col := range s.cols {
 		if a := mc.Attrs[col.Attr]; a.Class == "huge-whole" {
 			res.SetAdd("huge_whole_columns(arity/type)", fmt.Sprintf("v%d/%s", a.Arity, col.Type))
@@ -297,6 +308,30 @@ func runCase(c *run.Ctx, o genOpts) run.Result {
 				continue
 			}
 		}
+		if ei == 0 && mc.N > 0 {
+			maxRow := 0
+			if h, err := plyfile.ParseHeader(data); err == nil {
+				pos := h.BodyOffset
+				for i := 0; i < mc.N && pos < len(data); i++ {
+					k := bytes.IndexByte(data[pos:], '\n')
+					if k < 0 {
+						break
+					}
+					if k > maxRow {
+						maxRow = k
+					}
+					if k >= 4000 {
+						res.SetAdd("ascii_vertex_row_widths", rowWidthLabel(k))
+					}
+					pos += k + 1
+				}
+			}
+			asciiMaxRow = maxRow
+			s.asciiMaxRow = maxRow
+			if o.Wide != nil {
+				res.SetAdd("wide_row_populations", o.Wide.Label+"/"+o.Wide.Mode)
+			}
+		}
 		hdrs[ei] = s.checkFile(data, enc)
 		s.checkReadHeader(data, enc, hdrs[ei], plyfile.PickSource(srcRng))
 		snaps[ei] = s.readBack(data, enc, binaryDiv, knownRaw, plyfile.PickSource(srcRng))
@@ -305,6 +340,13 @@ func runCase(c *run.Ctx, o genOpts) run.Result {
 				res.Count("ascii_files_over_65536_vertices_read_back", 1)
 			} else {
 				res.Count("binary_files_over_65536_vertices_read_back", 1)
+			}
+		}
+		if ei == 0 && snaps[ei] != nil {
+			for _, b := range []int{4096, 8192, 16384, 60000} {
+				if asciiMaxRow > b {
+					res.Count(fmt.Sprintf("ascii_files_read_back_with_a_vertex_row_over_%d_bytes", b), 1)
+				}
 			}
 		}
 		if snaps[ei] != nil && ei == 0 && mc.N > 0 && len(s.cols) == 0 {
@@ -736,6 +778,12 @@ func (s *caseState) readBack(data []byte, enc encoding, binaryDiv, knownRaw map[
 		return nil
 	}
 	if err != nil {
+		if enc.name == "ascii" && s.asciiMaxRow >= scannerLimit-1 && strings.Contains(err.Error(), "token too long") {
+			// only reachable with includeRowsOver64KiB
+			s.res.Violate("ascii-row-over-64KiB", "ply ascii reader (bufio.Scanner token limit)", s.input,
+				fmt.Sprintf("the ASCII file written by the library has a vertex row of %d bytes; ply.ReadMesh: %v (both binary encodings round-trip)", s.asciiMaxRow, err), wit())
+			return nil
+		}
 		s.res.Violate("read-error", site, s.input, "reading a file written by the library failed: "+err.Error(), wit())
 		return nil
 	}
